@@ -65,13 +65,17 @@ func (m *PluginManager) ListInstalledPlugins() ([]PluginMetadata, error) {
 			if err != nil {
 				return nil, fmt.Errorf("couldn't list plugin directory: %w", err)
 			}
-			curOut[i].Versions = make([]Version, len(pluginVersions))
-			for j, version := range pluginVersions {
+			curOut[i].Versions = make([]Version, 0, len(pluginVersions))
+			for _, version := range pluginVersions {
+				if strings.HasPrefix(version.Name(), stagingDirPrefix) {
+					// Unfinished (possibly interrupted) installation.
+					continue
+				}
 				versionNumber, err := semver.NewVersion(version.Name())
 				if err != nil {
 					return nil, fmt.Errorf("couldn't parse plugin '%s' version number '%s': %w", curOut[i].Reference.String(), version.Name(), err)
 				}
-				curOut[i].Versions[j] = Version{Number: versionNumber}
+				curOut[i].Versions = append(curOut[i].Versions, Version{Number: versionNumber})
 			}
 			sort.Slice(curOut[i].Versions, func(j, k int) bool {
 				return curOut[i].Versions[j].Number.GreaterThan(curOut[i].Versions[k].Number)
@@ -184,7 +188,11 @@ func (m *PluginManager) Install(ctx context.Context, name string, constraint *se
 
 	url := manifest.GetBinaryDownloadURL(version.Number)
 
-	newPluginDir := filepath.Join(getPluginDir(), repoSlug, fmt.Sprintf("octosql-plugin-%s", name), version.Number.String())
+	finalPluginDir := filepath.Join(getPluginDir(), repoSlug, fmt.Sprintf("octosql-plugin-%s", name), version.Number.String())
+	// Download and unpack into a staging directory (ignored by ListInstalledPlugins) next to the final one
+	// and publish it only when it is complete, so that an interrupted install never leaves
+	// a half-installed version visible, and never removes a working one.
+	newPluginDir := filepath.Join(filepath.Dir(finalPluginDir), stagingDirPrefix+version.Number.String())
 
 	verifcrash.Point("install/before-removeall")
 	if err := os.RemoveAll(newPluginDir); err != nil {
@@ -240,10 +248,44 @@ func (m *PluginManager) Install(ctx context.Context, name string, constraint *se
 	}
 	verifcrash.Point("install/after-archive-remove")
 
+	if err := publishPluginDir(newPluginDir, finalPluginDir); err != nil {
+		return fmt.Errorf("couldn't move plugin into place: %w", err)
+	}
+
 	if err := registerFileExtensions(plugin.Name, plugin.FileExtensions); err != nil {
 		return fmt.Errorf("couldn't register file extensions: %w", err)
 	}
 	verifcrash.Point("install/done")
 
 	return nil
+}
+
+// stagingDirPrefix marks directories in which Install prepares a version before publishing it.
+const stagingDirPrefix = ".installing-"
+
+// publishPluginDir makes the fully prepared stagingDir visible as finalDir.
+// A new version appears with a single atomic rename. When the version is already installed,
+// its files are replaced one by one (each rename is atomic), so at any point in time
+// every file of the version is either the complete old one or the complete new one.
+func publishPluginDir(stagingDir, finalDir string) error {
+	if _, err := os.Stat(finalDir); os.IsNotExist(err) {
+		return os.Rename(stagingDir, finalDir)
+	}
+	err := filepath.Walk(stagingDir, func(path string, info os.FileInfo, err error) error {
+		if err != nil {
+			return err
+		}
+		rel, err := filepath.Rel(stagingDir, path)
+		if err != nil {
+			return err
+		}
+		if info.IsDir() {
+			return os.MkdirAll(filepath.Join(finalDir, rel), os.ModePerm)
+		}
+		return os.Rename(path, filepath.Join(finalDir, rel))
+	})
+	if err != nil {
+		return err
+	}
+	return os.RemoveAll(stagingDir)
 }
